@@ -1144,6 +1144,71 @@ func soak(r *hx.Rng, rounds int) {
 	}
 }
 
+// The over-limit family: a pool holding exactly [count] pending transactions (mostly packable json-rpc ones
+// in nonce sequence, some gate ones), packed under a FIXED proposal-flag regime -- every combination the
+// code distinguishes: nonce check on/off (018) x ordering 023 / 021 / 016-only / none.
+var overRegimes = []flags{
+	{true, true, true, true}, {true, true, true, false}, {true, true, false, false}, {false, true, false, false},
+	{true, false, true, true}, {true, false, true, false}, {true, false, false, false}, {false, false, false, false},
+}
+
+func overCounts() []int {
+	return []int{perBlock - 1, perBlock, perBlock + 1, perBlock + 50, 2 * perBlock}
+}
+
+func overLimitCase(r *hx.Rng, cs *hx.Cases, idx int, want flags, count int) {
+	f := setFlags(want)
+	g := &caseGen{r: r, f: f, lim: poolSize, byPtr: map[*types.Transaction]int{}, base: map[string]uint64{}, big: true, caseTag: fmt.Sprintf("over-%d", idx)}
+	mem, _ := db.NewMemDatabase()
+	g.pool = service.VerifNewTxPool(mem, poolSize)
+	// short hashes and addresses: the cost of a model case is dominated by parsing its numerals
+	for i := 0; i < 3; i++ {
+		s := fmt.Sprintf("0x%040x", 1+r.Intn(60000))
+		for _, o := range g.srcs {
+			if o == s {
+				s = fmt.Sprintf("0x%040x", 70000+i)
+			}
+		}
+		g.srcs = append(g.srcs, s)
+		g.base[s] = []uint64{0, 3, 1000}[i]
+	}
+	var many []string
+	for g.pool.TxNum() < count {
+		src := g.srcs[r.Intn(len(g.srcs))]
+		tx := &types.Transaction{Source: src, Target: src, Nonce: g.base[src] + uint64(r.Intn(3)), Type: 188, Data: "d", ChainId: "9500", Time: "t"}
+		if r.Intn(10) == 0 {
+			tx.RequestId = uint64(1 + r.Intn(1000))
+		}
+		copy(tx.Hash[26:], r.Bytes(6))
+		ix := g.addTbl(tx)
+		ok, err := g.pool.AddTransaction(tx)
+		if ok != (err == nil) {
+			violate("C17/add:result-inconsistent", "AddTransaction returned ok and an error, or neither", descTx(tx))
+		}
+		many = append(many, fmt.Sprintf("(%d, %s)", ix, hx.CoqBool(ok)))
+	}
+	g.emit("SAddMany ["+strings.Join(many, "; ")+"]", map[string]interface{}{"op": "add-many", "n": len(many)}, true)
+	g.plainPack = true
+	g.doPack()
+	// a block takes some of them; pack again
+	recv := g.recvIdx()
+	var txIdx []int
+	for k := 0; k < len(recv) && k < 1+r.Intn(60); k++ {
+		txIdx = append(txIdx, recv[r.Intn(len(recv))])
+	}
+	g.mark(txIdx, nil)
+	g.emit(fmt.Sprintf("SMark %s []", coqIdx(txIdx)), map[string]interface{}{"op": "mark", "txs": txIdx}, true)
+	g.doPack()
+	g.plainPack = false
+	tb := make([]string, len(g.tbl))
+	for i, t := range g.tbl {
+		tb[i] = coqTx(t)
+	}
+	term := fmt.Sprintf("(%s, (%d, %d), [%s],\n  [%s])", f.coq(), g.lim, perBlock, strings.Join(tb, "; "), strings.Join(g.steps, ";\n   "))
+	cs.Add(term, map[string]interface{}{"case": "over-limit family", "flags": f.String(), "pending": count, "ops": len(g.js)})
+	res.Count(fmt.Sprintf("seq:over-limit:%s:pending=%d", f.String(), count), fmt.Sprintf("over|%s|%d|%d", f.String(), count, idx), true)
+}
+
 // Mixed pools: gate transactions (RequestId != 0, ordered by request id) and json-rpc transactions
 // (RequestId 0, ordered by sender / nonce) pending together, gate senders' addresses on both sides of the
 // rpc sender's address with request ids correlated with the address, and the rpc sender holding a stale
@@ -1395,6 +1460,29 @@ func main() {
 		lruCase(r.Fork(), cs, a.N+nbig+i)
 	}
 	cs.Close()
+	// the over-limit family in its own (small) shards: every regime x every pending count
+	oc := hx.NewCasesNamed(a.Out, "over", "From Coq Require Import NArith.\nFrom V.C17 Require Import Model Harness.\nOpen Scope N_scope.", "(bool * bool * bool * bool) * (N * N) * list tx * list (sop * option (list N))", "check", 10)
+	nover := 0
+	reps := 1
+	if a.Tier == "thorough" {
+		reps = 3
+	}
+	for k := 0; k < reps; k++ {
+		for _, f := range overRegimes {
+			for _, n := range overCounts() {
+				overLimitCase(r.Fork(), oc, nover, f, n)
+				nover++
+			}
+		}
+	}
+	oc.Close()
+	{
+		var rs []string
+		for _, f := range overRegimes {
+			rs = append(rs, f.String())
+		}
+		res.Note(fmt.Sprintf("over-limit family: pending counts %v under each of the %d proposal-flag regimes the code distinguishes (nonce check 018 on/off x ordering 023 / 021 / 016-only / none): %s; every batch checked by the direct predicates (pack:over-limit, duplicate, not-pending, executed-packed, ahead-of-nonce, not-ascending) and by the model", overCounts(), len(overRegimes), strings.Join(rs, " | ")))
+	}
 	sc := hx.NewCasesNamed(a.Out, "sched", "From Coq Require Import NArith.\nFrom V.C17 Require Import Model Harness.\nOpen Scope N_scope.", "N * list tx * list (slop * option (list N * list N))", "check_sched", 100)
 	setFlags(flags{true, true, true, true})
 	nsched := 2
@@ -1419,7 +1507,7 @@ func main() {
 		res.Note(fmt.Sprintf("race detector active (GORACE halt_on_error=0): %d report(s) in total", n))
 	}
 	res.Note(fmt.Sprintf("txCountPerBlock=%d rcvTxPoolSize=%d (read from the service package); evicted-cache LRU bound (1000) exercised by the lru cases", perBlock, poolSize))
-	res.ModelCases = cs.Total() + sc.Total()
+	res.ModelCases = cs.Total() + sc.Total() + oc.Total()
 	res.Write(a.Out)
 	keys := make([]string, 0)
 	for k := range res.Histogram {
